@@ -27,6 +27,9 @@ fn expand_brace_expr_or_text(
     }
 }
 
+/// Upper bound on the number of elements a single `{a..b}` sequence may expand to.
+const MAX_SEQUENCE_ELEMENTS: u128 = 10_000_000;
+
 #[expect(clippy::cast_possible_truncation)]
 fn expand_brace_expr_member(bem: word::BraceExpressionMember) -> Box<dyn Iterator<Item = String>> {
     match bem {
@@ -40,15 +43,24 @@ fn expand_brace_expr_member(bem: word::BraceExpressionMember) -> Box<dyn Iterato
                 increment = 1;
             }
 
+            // N.B. A sequence is materialized in memory; one with an astronomical number of
+            // elements (`{1..9223372036854775807}`) cannot be, and aborting the shell on the failed
+            // allocation is not an answer. Like any other malformed brace expression it stays
+            // literal text.
+            let element_count =
+                (i128::from(end) - i128::from(start)).unsigned_abs() / (increment as u128) + 1;
+            if element_count > MAX_SEQUENCE_ELEMENTS {
+                return Box::new(std::iter::once(std::format!("{{{start}..{end}}}")));
+            }
+
             if start <= end {
                 Box::new((start..=end).step_by(increment).map(|n| n.to_string()))
             } else {
                 // Iterate from start down to end by decrementing.
-                #[allow(clippy::cast_possible_wrap)]
-                let increment = increment as i64;
+                let increment = i64::try_from(increment).unwrap_or(i64::MAX);
                 Box::new(
                     std::iter::successors(Some(start), move |&n| {
-                        let next = n - increment;
+                        let next = n.checked_sub(increment)?;
                         (next >= end).then_some(next)
                     })
                     .map(|n| n.to_string()),
@@ -70,10 +82,10 @@ fn expand_brace_expr_member(bem: word::BraceExpressionMember) -> Box<dyn Iterato
                 Box::new((start..=end).step_by(increment).map(|c| c.to_string()))
             } else {
                 // Iterate from start down to end by decrementing.
-                let increment = increment as u32;
+                let increment = u32::try_from(increment).unwrap_or(u32::MAX);
                 Box::new(
                     std::iter::successors(Some(start), move |&c| {
-                        let next = char::from_u32(c as u32 - increment)?;
+                        let next = char::from_u32((c as u32).checked_sub(increment)?)?;
                         (next >= end).then_some(next)
                     })
                     .map(|c| c.to_string()),
